@@ -409,6 +409,104 @@ func suiteText(tier string, seed uint64, model string) *Report {
 		}
 	}
 	rep.Count(fmt.Sprintf("path-text-model:printed=%d parsed-in-domain=%d of %d", len(nps), pin, len(ptl)))
+	// the same fragment lists after @ and without a head (first fragment written without its dot)
+	preqs = preqs[:0]
+	for _, np := range nps {
+		preqs = append(preqs, "jppath@\t"+np.spec, "jppath-\t"+np.spec)
+	}
+	pans, err = RunModel(model, preqs)
+	if err != nil {
+		rep.Add(Disagreement{Kind: "harness-error", Detail: err.Error()})
+		return rep
+	}
+	htexts := map[string]bool{"": true, "a": true, "a.b": true, "*": true, "..": true, "..a": true, "[1]": true, "@": true, "@.a": true, "@a": true, "$a": true, "a$": true, "['a'].b": true, ".a": true, "*.a": true, "a*": true}
+	for i, np := range nps {
+		xa := append(jp.A(), np.x[1:]...)
+		xn := append(jp.Expr{}, np.x[1:]...)
+		for j, x := range []jp.Expr{xa, xn} {
+			rep.Evaluations++
+			got := hx([]byte(x.String()))
+			if got != pans[2*i+j] {
+				rep.Add(Disagreement{Case: np.spec, Where: []string{"Expr.String after @", "Expr.String without head"}[j], Kind: "impl-vs-model:path-print", Impl: got, Model: pans[2*i+j]})
+			}
+			htexts[x.String()] = true
+		}
+	}
+	var htl []string
+	for t := range htexts {
+		htl = append(htl, t)
+	}
+	sort.Strings(htl)
+	preqs = preqs[:0]
+	for _, t := range htl {
+		preqs = append(preqs, "jpparseh\t"+hx([]byte(t)))
+	}
+	pans, err = RunModel(model, preqs)
+	if err != nil {
+		rep.Add(Disagreement{Kind: "harness-error", Detail: err.Error()})
+		return rep
+	}
+	hin := 0
+	for i, t := range htl {
+		rep.Evaluations++
+		if pans[i] == "-" {
+			continue
+		}
+		hin++
+		got := safe(func() string {
+			y, err := jp.ParseString(t)
+			if err != nil {
+				return "E " + err.Error()
+			}
+			head := "-"
+			rest := y
+			if len(y) > 0 {
+				switch y[0].(type) {
+				case jp.Root:
+					head, rest = "$", y[1:]
+				case jp.At:
+					head, rest = "@", y[1:]
+				}
+			}
+			var sp []string
+			for _, f := range rest {
+				switch tf := f.(type) {
+				case jp.Child:
+					sp = append(sp, "c"+hx([]byte(string(tf))))
+				case jp.Nth:
+					sp = append(sp, fmt.Sprintf("i%d", int(tf)))
+				case jp.Wildcard:
+					sp = append(sp, "w"+string([]byte{byte(tf)}))
+				case jp.Descent:
+					sp = append(sp, "d")
+				case jp.Slice:
+					u := "l"
+					for _, v := range tf {
+						u += fmt.Sprintf(",%d", v)
+					}
+					sp = append(sp, u)
+				case jp.Union:
+					u := "u"
+					for _, m := range tf {
+						switch tm := m.(type) {
+						case string:
+							u += ",s" + hx([]byte(tm))
+						case int64:
+							u += fmt.Sprintf(",i%d", tm)
+						}
+					}
+					sp = append(sp, u)
+				default:
+					sp = append(sp, fmt.Sprintf("?%T", f))
+				}
+			}
+			return strings.TrimSpace("O " + head + " " + strings.Join(sp, " "))
+		})
+		if got != strings.TrimSpace(pans[i]) {
+			rep.Add(Disagreement{Case: fmt.Sprintf("%q", t), Where: "jp.ParseString vs parse_path_h", Kind: "impl-vs-model:path-parse", Impl: got, Model: pans[i]})
+		}
+	}
+	rep.Count(fmt.Sprintf("path-text-model:heads parsed-in-domain=%d of %d", hin, len(htl)))
 	rans, err := RunModel(model, rreqs)
 	if err != nil {
 		rep.Add(Disagreement{Kind: "harness-error", Detail: err.Error()})
